@@ -51,7 +51,7 @@ PROPS = {
     },
     'C11': {
         'level': 'proof',
-        'kani': False,
+        'kani': True,
         'explanation': 'Breakpoints::{new,get,insert,remove,with_orig,len,is_empty} are proved against the data-structure invariant bp_wf (strictly '
                        'increasing addresses) and a whole-set postcondition (address set after insert/remove, other entries preserved) with loop '
                        'invariants and two induction lemmas; check_interrupts is proved to pause (status Wait, remember the address) exactly when the '
